@@ -12,7 +12,11 @@ cos/sin quadratures, closed form of (causal / anti-causal complex exponential) *
 model's effective position centre - shift + dispersion) with one fitted constant per matrix (the closed form
 itself is checked against mpmath quadrature of the convolution integral on samples), the real decay
 megacomplex of the same dataset as the reference for the IRF position, the Gaussian and its numerical first
-and second derivatives, amplitude / half maximum / FWHM bisection / continuity in the skewness on the real code.
+and second derivatives, amplitude / half maximum / FWHM bisection / continuity in the skewness on the real code; sum of the documented
+formulae per compartment for datasets with several spectral megacomplexes; reversed axis = reversed rows.
+Translator: `generate` rewrites lean/GlotaranModel/Generated/C07Fns.lean from the source text (harness/props/_c07_translate.py); the theorems
+`generated_*_eq_model` of Props/C07.lean tie every translated formula to the model definition (a broken one is a broken proof obligation:
+widened search, then `no-failing-input-found`).
 """
 from __future__ import annotations
 
@@ -29,6 +33,7 @@ import numpy as np
 
 from harness import core
 from harness.props import _c07_real as R
+from harness.props import _c07_translate as TR
 
 PROP = "C07"
 REQUIRED_THEOREMS = [
@@ -41,7 +46,23 @@ REQUIRED_THEOREMS = [
     "irf_parameter_index_plumbing", "dispersion_poly_spec", "osc_matrix_slice_i_uses_parameters_i",
     "pfid_matrix_slice_i_uses_parameters_i", "artifact_matrix_slice_i_uses_parameters_i",
     "anticausal_vanishes_after_pulse", "spectral_columns_by_label",
+    # translator (Generated/C07Fns.lean is regenerated from the source text on every run)
+    "generated_gaussian_eq_model", "generated_skewed_eq_model", "generated_shape_dispatch_eq_model",
+    "generated_artifact_eq_model", "generated_noirf_kernel_eq_model", "generated_noirf_kernel_covers_all_columns",
+    "generated_conversions_eq_model",
+    "generated_osc_irf_kernel_eq_model", "generated_pfid_kernel_eq_model",
+    "generated_osc_irf_on_index_eq_model", "generated_pfid_on_index_eq_model", "generated_artifact_centre_eq_model",
+    # the error function defined (Lemmas/C07Erf.lean) and the convolution clause as an integral identity (Lemmas/C07Conv.lean)
+    "spectral_axis_conversion_spec", "spectral_shapes_add_per_compartment",
+    "erfC_is_error_function", "osc_irf_kernel_ode", "osc_irf_is_convolution", "osc_irf_gauss_is_windowed_convolution",
 ]
+GEN_FILE = core.LEAN / "GlotaranModel" / "Generated" / "C07Fns.lean"
+
+
+def generate(ck):
+    """regenerate lean/GlotaranModel/Generated/C07Fns.lean from the source text of VERIF_REPO (written only when changed)"""
+    return TR.generate(core.REPO, GEN_FILE)
+
 TRUSTED = [
     "hand-written model lean/GlotaranModel/C07.lean of damped_oscillation_megacomplex.py (calculate_matrix, both "
     "kernels), pfid_megacomplex.py (calculate_matrix, kernel), coherent_artifact_megacomplex.py (calculate_matrix, "
@@ -49,8 +70,12 @@ TRUSTED = [
     "(parameter of both IRF classes, is_index_dependent), tied by differential execution only",
     "numpy / scipy.special.erf (complex) in IEEE doubles as evaluator of the model's terms; mpmath (exp, cos, sin, "
     "log, complex erf/erfc, quad, diff) as independent evaluator and as the oracle's evaluator",
-    "no complex error function exists in Mathlib: `erf` is a parameter of the model; the only analytic fact "
-    "proved about the IRF-convolved kernel is its ODE under the hypothesis erf' = 2/sqrt(pi) exp(-z^2)",
+    "`erf` is a parameter of the model; the theorems about the convolution instantiate it with the entire error function erfC "
+    "defined and differentiated in Lemmas/C07Erf.lean; that scipy.special.erf computes erfC is observed numerically (mpmath), not proved",
+    "the translator harness/props/_c07_translate.py (ast -> Lean over the model's number class, Generated/C07Fns.lean): its reading of the "
+    "numpy subset (one element per array, decimal literals as the rationals they spell, np.log(2) / np.sqrt(2) / np.pi as symbols, numpy's "
+    "default allclose atol) is trusted; its output is proved equal to the hand-written model (generated_*_eq_model) and the model is "
+    "cross-checked against the running code by the correspondence",
 ]
 ASSUMPTIONS = [
     "theorems are over the reals / complex numbers; floating-point rounding, overflow and cancellation of the "
@@ -72,7 +97,8 @@ RULE = (
     "probe axis around the resonance, inverted/scaled spectral axis, unsupported non-negative rates), coherent "
     "artifact (orders 0-4, own or IRF width), spectral shapes (gaussian / skewed incl. skewness 0, +-1e-9, +-1e-8, "
     "+-2e-8, up to +-2, axis points at the location, at +-FWHM/2 and where the logarithm's argument changes "
-    "sign; one / zero; inverted and scaled axes). Model axes of 2-14 points around the pulse incl. exact window "
+    "sign; one / zero; inverted and scaled axes), datasets of 2-3 spectral megacomplexes sharing compartments (dataset matrix), the "
+    "enumeration shape type x axis mode x axis order. Model axes of 2-14 points around the pulse incl. exact window "
     "boundaries centre - shift +- 5 sigma (dyadic), unsorted / reversed / duplicate points, < 2 points. Error "
     "stream: centre/width length mismatch, missing shift, missing IRF, order out of range, unequal zip. "
     "non-trivial = the case has an IRF with shift or dispersion, or >= 2 oscillations / shapes / orders; "
@@ -414,6 +440,8 @@ def nontrivial(case):
         return len(case["oscs"]) >= 2
     if case["kind"] == "artifact":
         return case["order"] >= 2
+    if case["kind"] == "spectralds":
+        return True
     return len(case["shapes"]) >= 2
 
 
@@ -653,6 +681,8 @@ def oracle(ck, case, real):
         oracle_irf(ck, case, real)
     elif kind == "artifact":
         oracle_artifact(ck, case, real)
+    elif kind == "spectralds":
+        oracle_spectralds(ck, case, real)
     else:
         oracle_spectral(ck, case, real)
 
@@ -913,32 +943,38 @@ def convert_axis_mp(case, x):
     return x
 
 
+def shape_tolerance(sh, xc, want):
+    """allowed |double - documented formula| for one shape at the converted coordinate xc"""
+    amp = 1.0 if sh[2] is None else sh[2]
+    b = sh[5] if sh[1] == "skewed" else 0.0
+    # conversion of the axis in doubles moves xc by <= 2 ulp: propagate through the slope of the shape
+    u = abs(float((xc - mp().mpf(sh[3])) / mp().mpf(sh[4]))) if sh[1] in ("gaussian", "skewed") else 0.0
+    slope = abs(amp) * (8 * (u + 1)) * abs(float(xc) / sh[4]) * 4 * EPS / max(1e-300, 1.0) if sh[1] in ("gaussian", "skewed") else 0.0
+    if sh[1] == "skewed" and b != 0:
+        slope *= 1 + 1 / max(abs(1 + 2 * b * float((xc - mp().mpf(sh[3])) / mp().mpf(sh[4]))), 1e-12) / max(abs(b), 1e-12) * 1e-3
+    tol = 1e-11 * abs(amp) + slope
+    if sh[1] == "skewed" and 0 < abs(b) <= 1e-7:
+        tol += 8 * (u + 1) ** 3 * abs(b) * abs(amp) + 1e-8 * abs(amp)   # continuity: switch / log1p rounding
+    if sh[1] == "skewed" and b != 0 and want != 0:
+        # np.log(1 + small) carries the rounding of `1 + small`: relative error eps / |log theta| of the
+        # logarithm, i.e. 2 E eps / |log theta| of the value, E = ln2 (log theta / b)^2
+        th = 1 + 2 * b * float((xc - mp().mpf(sh[3])) / mp().mpf(sh[4]))
+        lt = abs(math.log(th)) if th > 0 else 0.0
+        if lt > 0:
+            tol += abs(want) * 2 * math.log(2) * (lt / b) ** 2 * 4 * EPS / lt
+    return tol
+
+
 def oracle_spectral(ck, case, real):
     labels, M = real[1], real[2]
     if labels != [s[0] for s in case["shapes"]]:
         ck.violation("spectral-labels", f"labels {labels} differ from the compartments of the shape dict", {"case": case})
         return
     for j, sh in enumerate(case["shapes"]):
-        amp = 1.0 if sh[2] is None else sh[2]
         for xi, x in enumerate(case["model_axis"]):
             xc = convert_axis_mp(case, x)
             want = float(shape_truth(sh, xc))
-            b = sh[5] if sh[1] == "skewed" else 0.0
-            # conversion of the axis in doubles moves xc by <= 2 ulp: propagate through the slope of the shape
-            u = abs(float((xc - mp().mpf(sh[3])) / mp().mpf(sh[4]))) if sh[1] in ("gaussian", "skewed") else 0.0
-            slope = abs(amp) * (8 * (u + 1)) * abs(float(xc) / sh[4]) * 4 * EPS / max(1e-300, 1.0) if sh[1] in ("gaussian", "skewed") else 0.0
-            if sh[1] == "skewed" and b != 0:
-                slope *= 1 + 1 / max(abs(1 + 2 * b * float((xc - mp().mpf(sh[3])) / mp().mpf(sh[4]))), 1e-12) / max(abs(b), 1e-12) * 1e-3
-            tol = 1e-11 * abs(amp) + slope
-            if sh[1] == "skewed" and 0 < abs(b) <= 1e-7:
-                tol += 8 * (u + 1) ** 3 * abs(b) * abs(amp) + 1e-8 * abs(amp)   # continuity: switch / log1p rounding
-            if sh[1] == "skewed" and b != 0 and want != 0:
-                # np.log(1 + small) carries the rounding of `1 + small`: relative error eps / |log theta| of the
-                # logarithm, i.e. 2 E eps / |log theta| of the value, E = ln2 (log theta / b)^2
-                th = 1 + 2 * b * float((xc - mp().mpf(sh[3])) / mp().mpf(sh[4]))
-                lt = abs(math.log(th)) if th > 0 else 0.0
-                if lt > 0:
-                    tol += abs(want) * 2 * math.log(2) * (lt / b) ** 2 * 4 * EPS / lt
+            tol = shape_tolerance(sh, xc, want)
             if not abs(M[xi, j] - want) <= tol:
                 ck.violation(f"shape-{sh[1]}-not-the-documented-formula",
                              f"spectral shape {sh[0]} ({sh[1]}, amplitude {sh[2]!r}, location {sh[3]!r}, width {sh[4]!r}"
@@ -946,6 +982,110 @@ def oracle_spectral(ck, case, real):
                              + f") at axis value {x!r} (converted {float(xc)!r}): {M[xi, j]!r}, documented formula {want!r}",
                              {"case": case})
                 return
+
+
+def gen_spectralds_case(rng):
+    """a dataset with 2-3 spectral megacomplexes; compartments shared between them get several shapes"""
+    base = gen_spectral_case(rng)
+    pool = ["s1", "s2", "s3", "s1_x"]
+    megas = []
+    for k in range(rng.choice([2, 2, 3])):
+        c = gen_spectral_case(rng)
+        comps = rng.sample(pool, min(len(pool), rng.choice([1, 2, 3])))
+        shapes = []
+        for comp, sh in zip(comps, c["shapes"] + base["shapes"] * 3):
+            sh = list(sh)
+            sh[0] = comp
+            if base["inverted"] != c["inverted"] and sh[1] in ("gaussian", "skewed"):
+                sh[3], sh[4] = base["shapes"][0][3], base["shapes"][0][4]     # keep location / width in the units of `base`
+            shapes.append(sh)
+        megas.append(shapes)
+    if len({sh[0] for m in megas for sh in m}) == sum(len(m) for m in megas):
+        megas[-1][0][0] = megas[0][0][0]                                      # at least one shared compartment
+    return {"kind": "spectralds", "megas": megas, "inverted": base["inverted"], "scale": base["scale"],
+            "global_axis": [0.0], "model_axis": base["model_axis"]}
+
+
+def oracle_spectralds(ck, case, real):
+    """dataset-level: labels in first-occurrence order; the column of a compartment is the sum of the documented formulae
+    of all shapes given to it"""
+    labels, M = real[1], real[2]
+    want_labels = []
+    for m_ in case["megas"]:
+        for sh in m_:
+            if sh[0] not in want_labels:
+                want_labels.append(sh[0])
+    if labels != want_labels:
+        ck.violation("spectral-dataset-labels", f"labels {labels}; compartments in order of first occurrence {want_labels}", {"case": case})
+        return
+    for j, lab in enumerate(labels):
+        shs = [sh for m_ in case["megas"] for sh in m_ if sh[0] == lab]
+        for xi, x in enumerate(case["model_axis"]):
+            xc = convert_axis_mp(case, x)
+            vals = [float(shape_truth(sh, xc)) for sh in shs]
+            want = sum(vals)
+            tol = sum(shape_tolerance(sh, xc, v) for v, sh in zip(vals, shs)) + 4 * EPS * sum(abs(v) for v in vals)
+            if not abs(M[xi, j] - want) <= tol:
+                ck.violation("spectral-shapes-of-a-compartment-do-not-add-up",
+                             f"compartment {lab} has {len(shs)} shape(s); dataset matrix at axis value {x!r}: {M[xi, j]!r}, "
+                             f"sum of the documented formulae {want!r}", {"case": case})
+                return
+
+
+def spectral_glue_enumeration(ck, ne):
+    """every builtin shape type x {plain, scaled, inverted} axis x {ascending, descending, unsorted} axis order, alone and
+    as second shape of a shared compartment; also: the shape types registered in the real code are the ones the model
+    (and the translator's `shapeTypes`) knows"""
+    from glotaran.builtin.megacomplexes.spectral.shape import SpectralShape
+    try:
+        real_types = sorted(SpectralShape.get_item_types())
+    except Exception as e:  # noqa: BLE001
+        real_types = []
+        ck.diagnostic("SpectralShape.get_item_types() failed", {"error": repr(e)})
+    known = {"gaussian": "gaussian", "skewed-gaussian": "skewed", "one": "one", "zero": "zero"}
+    ck.extra["builtin_shape_types"] = real_types
+    for t in real_types:
+        ck.count("shape-type:" + (t if t in known else "UNMODELLED:" + t))
+        if t not in known:
+            ck.diagnostic("a spectral shape type of the real code is not modelled", {"type": t})
+    cases = []
+    modes = [("plain", False, 1.0), ("scaled", False, 2.0), ("scaled", False, 1e-3), ("inverted", True, 1e7), ("inverted", True, 2.0)]
+    for typ in ("gaussian", "skewed", "one", "zero"):
+        for mode, inv, scale in modes:
+            for order in ("ascending", "descending", "unsorted"):
+                if inv and scale == 1e7:
+                    x0, width = 20000.0, 1500.0
+                elif inv:
+                    x0, width = 0.0625, 0.03125
+                else:
+                    x0, width = 24.0, 4.0
+                conv = [x0 + width * u for u in (-1.5, -0.5, -0.25, 0.0, 0.25, 0.5, 1.0, 2.0)]
+                axis = [scale / p for p in conv] if inv else [p / scale for p in conv]
+                axis = sorted(axis)
+                if order == "descending":
+                    axis = axis[::-1]
+                elif order == "unsorted":
+                    axis = axis[3:] + axis[:3][::-1]
+                b = ck.rng.choice([0.5, -0.7, 1e-9, 2.0])
+                sh = ["s1", typ, ck.rng.choice([None, 2.0, -0.5]), x0, width, b]
+                cases.append({"kind": "spectral", "shapes": [sh, ["s2", "one", None, 0.0, 1.0, 0.0]], "inverted": inv, "scale": scale,
+                              "global_axis": [0.0], "model_axis": axis})
+                cases.append({"kind": "spectralds", "megas": [[["s0", "zero", None, 0.0, 1.0, 0.0], sh], [["s1", "gaussian", 0.5, x0, width, 0.0]]],
+                              "inverted": inv, "scale": scale, "global_axis": [0.0], "model_axis": axis})
+                ck.count(f"glue:{typ}:{mode}:{order}")
+    reals = run_cases(ck, cases, ne)
+    # descending axis = reversed rows of the ascending axis (bit for bit: every row depends on its own axis point only)
+    for c, r in zip(cases, reals):
+        if r[0] != "ok":
+            ck.violation("spectral-glue-raises", f"spectral megacomplex raises {r[1]}: {r[2]}", {"case": c})
+            continue
+        rev = R.run_real(dict(c, model_axis=c["model_axis"][::-1]))
+        ck.oracle_evals += 1
+        if rev[0] != "ok" or rev[1] != r[1] or not np.array_equal(rev[2], r[2][::-1], equal_nan=True):
+            ck.violation("spectral-rows-do-not-follow-axis-order", "reversing the model axis does not reverse the rows of the spectral matrix",
+                         {"case": c})
+    ck.extra["spectral_glue_enumeration"] = {"cases": len(cases), "shape_types": 4, "axis_modes": [m[0] + ":" + repr(m[2]) for m in modes],
+                                             "axis_orders": ["ascending", "descending", "unsorted"]}
 
 
 def shape_value(sh, xs):
@@ -1228,7 +1368,10 @@ def run(ck):
         cases.append(gen_error_case(ck.rng))
     for _ in range(ck.n(6, 60)):
         cases.append(gen_wrap_case(ck.rng))
+    for _ in range(ck.n(30, 300)):
+        cases.append(gen_spectralds_case(ck.rng))
     run_cases(ck, cases, ne)
+    spectral_glue_enumeration(ck, ne)
     irf_parameter_enumeration(ck, ne)
     result_observables(ck, ne, ck.n(6, 45))
     oracle_shape_facts(ck, ck.rng, ck.n(12, 120))
@@ -1244,7 +1387,7 @@ def run(ck):
 def search(ck):
     """widened oracle-only sweep on the real code"""
     for _ in range(ck.n(150, 1200)):
-        for gen in (gen_osc_case, gen_pfid_case, gen_artifact_case, gen_spectral_case):
+        for gen in (gen_osc_case, gen_pfid_case, gen_artifact_case, gen_spectral_case, gen_spectralds_case):
             case = gen(ck.rng)
             real = R.run_real(case)
             oracle(ck, case, real)
